@@ -545,7 +545,7 @@ def run_shard(ctx, spec):
 
 
 def plan(tier, seed):
-    n = 15000 if tier == "quick" else 200000
+    n = 15000 if tier == "quick" else 600000
     return [("valid", n // 16, i) for i in range(16)] + [("defects",), ("scope",)]
 
 
